@@ -2248,8 +2248,15 @@ def _transport_conditional_counterfactual_query_line_4(
     )
     # The input outcome and condition variables and their values, to be used
     # to evaluate the return expression.
+    # A condition that is independent of the outcomes does not occur in the expression,
+    # so it has no place in the event used to evaluate the expression either.
+    result_expression_variable_names = {
+        variable.get_base() for variable in result_expression.get_variables()
+    }
     result_event: list[tuple[Variable, Intervention]] = [
-        (variable.get_base(), value) for variable, value in itt.chain(outcomes, conditions)
+        (variable.get_base(), value)
+        for variable, value in itt.chain(outcomes, conditions)
+        if variable.get_base() in result_expression_variable_names
     ]
     _validate_transport_conditional_counterfactual_query_line_4_output(
         simplified_event=simplified_event,
